@@ -107,7 +107,7 @@ def usb_session(seed):
     m = env.mods()
     import threading
     import time
-    m['sync'].time = time
+    env.bind_time(time, m['sync'])
     m['sync'].Lock = threading.Lock
     dev = simdev.SimDevice(seed=seed, auth=simdev.AuthPolicy(maxdata=65536))
     c18.prep(dev)
